@@ -548,10 +548,11 @@ Section Refinement.
     snd (q_step bk st op) = snd (spec_step s op) /\
     Inv (fst (q_step bk st op)) (fst (spec_step s op)).
   Proof.
-    intro I. destruct op as [t p|t|d|d|].
+    intro I. destruct op as [t p|t e|t|d|d|].
     - pose proof (step_add st s t p I) as H. unfold q_step.
       destruct (q_add bk st t p) as [st' r]. destruct (spec_step s (Add t p)) as [s' o].
       simpl. exact H.
+    - simpl. split; [reflexivity|exact I].
     - pose proof (step_remove st s t I) as H. unfold q_step.
       destruct (q_remove bk st t) as [st' r]. destruct (spec_step s (Remove t)) as [s' o].
       simpl. exact H.
